@@ -24,7 +24,7 @@ PATS = [(), ("A",), ("B*", "C")]
 STATUS_ORDER = ["shouldrun", "submitted", "running", "completed", "failed", "cancelled"]
 
 
-def _setup(shape, be, ea, eb, ec, ja, jb, states, hashing=False, hash_sit=0):
+def _setup(shape, be, ea, eb, ec, ja, jb, states, hashing=False, hash_sit=0, c_state="none"):
     with q.notrace():
         pr = Project(shape, be, hashing=hashing)
         pr.add_sources(5)
@@ -34,6 +34,8 @@ def _setup(shape, be, ea, eb, ec, ja, jb, states, hashing=False, hash_sit=0):
         for nm, j, jid in (("A", ja, "11"), ("B", jb, "12")):
             if states[j] != "none":
                 pr.add_tracked(nm, jid, states[j])
+        if c_state != "none":
+            pr.add_tracked("C", "13", c_state)
         pr.write_tracked()
         pr.w.file(".gwf/logs/Gone.stdout", 1, "log of a removed target")
         pr.w.file(".gwf/logs/A.stdout", 1, "log of A")
@@ -53,17 +55,23 @@ def _oracle(pr, be, abstract, chg=None):
 
 
 # ---------------------------------------------------------------- Q5b filters and formats
-def _q5b(ea, eb, ec, ja, jb):
+CSTATES = ["none", "failed", "cancelled"]
+
+
+def _q5b(ea, eb, ec, ja, jb, jc):
     sh = q.SHARD
     states = STATES6 if sh.get("six") else STATES4
-    if not (q.in_range(ja, len(states)) and q.in_range(jb, len(states))):
+    if not (q.in_range(ja, len(states)) and q.in_range(jb, len(states)) and q.in_range(jc, 3)):
         return q.SKIP
+    if not sh["e"] and jc != 0:
+        return q.SKIP        # the endpoint's own earlier job is varied in the --endpoints shards
+    jc = q.pick([0, 1, 2], jc)
     ea, eb, ec = (True if ea else False), (True if eb else False), (True if ec else False)
     ja, jb = q.pick(list(range(len(states))), ja), q.pick(list(range(len(states))), jb)
     be = sh.get("be", "slurm")
-    pr = _setup(sh["shape"], be, ea, eb, ec, ja, jb, states)
+    pr = _setup(sh["shape"], be, ea, eb, ec, ja, jb, states, c_state=CSTATES[jc])
     try:
-        abstract = {"A": states[ja], "B": states[jb]}
+        abstract = {"A": states[ja], "B": states[jb], "C": CSTATES[jc]}
         bstate, stale = _oracle(pr, be, abstract)
         cone, st, pre, sub = P.plan(pr.n, pr.deps, stale, bstate, P.endpoints(pr.n, pr.deps))
         full = {pr.names[i]: st[i].lower() for i in cone}
@@ -104,11 +112,11 @@ def _q5b(ea, eb, ec, ja, jb):
         pr.w.uninstall()
 
 
-def q5b(ea: bool, eb: bool, ec: bool, ja: int, jb: int) -> str:
+def q5b(ea: bool, eb: bool, ec: bool, ja: int, jb: int, jc: int) -> str:
     """
     post: _ == ""
     """
-    return q.run(_q5b, (ea, eb, ec, ja, jb))
+    return q.run(_q5b, (ea, eb, ec, ja, jb, jc))
 
 
 # ---------------------------------------------------------------- Q5c previews are pure and agree with the run
@@ -199,7 +207,7 @@ QUERIES = [
      "shards": {"quick": _fshards([(0, 0, False, "default"), (1, 0, False, "default"), (2, 1, False, "default"), (3, 2, True, "default"), (0, 0, True, "summary"), (1, 2, False, "summary"), (2, 0, False, "summary"), (3, 1, True, "summary")]),
                 "thorough": _fshards([(s, p, e, f) for s in range(4) for p in range(3) for e in (False, True) for f in ("default", "summary")], six=True)},
      "timeout": {"quick": 900, "thorough": 2400},
-     "bound": "chain of 3 targets; existence of each output and the earlier job state of A and B (4 values quick / 6 thorough) symbolic; filter combination per shard: -s subsets %s x patterns %s x --endpoints x format {default, summary}: 8 combinations (quick), all 48 (thorough)" % (SSETS, PATS)},
+     "bound": "chain of 3 targets; existence of each output and the earlier job state of A and B (4 values quick / 6 thorough) symbolic, and - in the --endpoints shards - of the endpoint C (none / failed / cancelled); filter combination per shard: -s subsets %s x patterns %s x --endpoints x format {default, summary}: 8 combinations (quick), all 48 (thorough)" % (SSETS, PATS)},
     {"name": "Q5c", "fn": q5c,
      "shards": {"quick": [dict(d, ja=k) for d in ({"be": "slurm", "shape": "chain3"}, {"be": "local", "shape": "fork3"}) for k in range(6)] + [{"be": "slurm", "shape": "chain3", "hashing": True, "ja": k} for k in (0, 4)],
                 "thorough": [{"be": b, "shape": s, "hashing": h, "ja": k} for b in ("slurm", "sge", "lsf", "local") for s in ("chain3", "fork3") for h in (False, True) for k in range(6)]},
